@@ -303,6 +303,9 @@ def _jsonable(x):
 
 def _delay(d, x):
     """seeded 0..max_ms delay derived from the argument digest and a per-run salt (never touches an RNG)"""
+    if d.get("fixed_ms"):
+        time.sleep(d["fixed_ms"] / 1000.0)
+        return
     h = hashlib.blake2b((d["salt"] + repr(x)).encode(), digest_size=2).digest()
     ms = d["max_ms"] * (h[0] / 255.0) if h[1] < 256 * d.get("p", 0.5) else 0.0
     if ms > 0:
